@@ -43,6 +43,18 @@ def handle (op stream : String) (ins outs : List String) : List Out :=
     let u := union_bounds (T2.mk (f 0) (f 1)) (T2.mk (f 2) (f 3))
     [{ field := "union.min", cmp := if u.t0.toBits == (ov.getD 0 default).bits then .same 0 else .diff s!"model={u.t0} impl={(ov.getD 0 default).f}", fbit := some true },
      { field := "union.max", cmp := if u.t1.toBits == (ov.getD 1 default).bits then .same 0 else .diff s!"model={u.t1} impl={(ov.getD 1 default).f}", fbit := some true }]
+  | "pbox" =>
+    -- ins: #k start then (cp1 cp2 end) per curve of a 1-D path ; outs: box.min box.max fast.min fast.max
+    let vals : List Float := (ins.drop 1).map (fun s => (⟨parseHex s⟩ : FV).f)
+    let ov : List FV := outs.map (fun s => ⟨parseHex s⟩)
+    let k := parseNat (ins.headD "#0")
+    let curves : List (T4 Float Float Float Float) := (List.range k).map fun i =>
+      T4.mk (vals.getD (3*i) 0) (vals.getD (3*i+1) 0) (vals.getD (3*i+2) 0) (vals.getD (3*i+3) 0)
+    let b := path_bounding_box curves
+    let f := path_fast_bounding_box curves
+    let one (name : String) (m : Float) (i : Nat) : Out :=
+      { field := name, cmp := if m.toBits == (ov.getD i default).bits then .same 0 else .diff s!"model={m} impl={(ov.getD i default).f}", fbit := some (m.toBits == (ov.getD i default).bits) }
+    [one "pbox.min" b.t0 0, one "pbox.max" b.t1 1, one "pbox.fast_min" f.t0 2, one "pbox.fast_max" f.t1 3]
   | _ => [{ field := "unknown-op " ++ op, cmp := .diff "driver does not know this operation", fbit := none }]
 
 end Driver.C06
